@@ -123,6 +123,8 @@ def expr_rec(e, rec):
     """the expression as Python source over a record of the given representation:
     tuple d[i], dict d["x"], attribute d.x, scalar x (field 0 only), or bare names (string form)"""
     t = e[0]
+    if t == "vec":
+        return "(" + ", ".join(expr_rec(["f", i], rec) for i in e[1:]) + ",)"
     if t == "f":
         n = FIELDS[e[1]]
         return {"tuple": "d[%d]" % e[1], "dict": 'd["%s"]' % n, "attr": "d.%s" % n,
@@ -703,10 +705,16 @@ def dfhist(m, op):
     allcols = extra.get("columns", cols)
     df = dfspec.frame(rows, allcols, dtypes)
     before = df.copy(deep=True)
-    kw = {"features": [key], "bin_specs": {key: specs[0] if len(cols) == 1 else specs}}
+    call_specs = list(specs)
+    bs = {}
+    for c, sp in (extra.get("col_specs") or {}).items():
+        # the n-dim entry leaves this axis open ({}): it reverts to the 1-dim specification
+        bs[c] = sp
+        call_specs[cols.index(c)] = {}
+    bs[key] = call_specs[0] if len(cols) == 1 else call_specs
+    kw = {"features": [key], "bin_specs": bs}
     if extra.get("time_axis"):
         kw.update(time_axis=extra["time_axis"], time_width=extra["time_width"], time_offset=extra["time_offset"])
-        kw["bin_specs"] = {key: specs} if len(cols) > 1 else {key: specs[0]}
     if not hasattr(m, "dflog"):
         m.dflog = []
     rec = {"rows": len(rows), "key": key}
@@ -939,7 +947,7 @@ class FcnMachine(Machine):
         if t == "wrap":
             _, sd, wops, ds, rec = op
             try:
-                u = apply_wops(mk_src(sd["form"], sd["e"], rec, sd.get("fname", "myfn")), wops)
+                u = apply_wops(mk_src(sd["form"], sd["e"], "dict" if rec == "mixed" else rec, sd.get("fname", "myfn")), wops)
             except ValueError as e:
                 self.exc.append(exc_class(e))
                 return [1]
@@ -947,13 +955,19 @@ class FcnMachine(Machine):
                 return [2]
             out = [0, 1 if isinstance(u, hg.util.CachedFcn) else 0] + tok_optstr(u.name)
             # the same function unwrapped, called on fresh copies of the records: the reference
-            raw = mk_src(sd["form"] if sd["form"] != "str" else "lam", sd["e"], rec if sd["form"] != "str" else rec)
+            forms = ["dict", "attr", "scalar"] if rec == "mixed" else [rec]
+            raws = {f: mk_src(sd["form"] if sd["form"] != "str" else "lam", sd["e"], f) for f in forms}
             if not hasattr(self, "wraplog"):
                 self.wraplog = []
             log = []
             for d in ds:
+                if rec == "mixed":
+                    fm, d = d[0], d[1]
+                else:
+                    fm = rec
+                raw = raws[fm]
                 try:
-                    v = u(to_record(d, rec))
+                    v = u(to_record(d, fm))
                     out += [0] + tok_value(v)
                     got = ("v", tok_value(v))
                 except Exception as e:  # noqa: BLE001
@@ -961,7 +975,7 @@ class FcnMachine(Machine):
                     out += [1]
                     got = ("raise",)
                 try:
-                    w = raw(to_record(d, rec))
+                    w = raw(to_record(d, fm))
                     ref = ("v", tok_value(w))
                 except Exception:  # noqa: BLE001
                     ref = ("raise",)
